@@ -122,6 +122,10 @@ func (p *MP4ChunkParser) readUntil(contentEnd int) error {
 		n, err := p.r.Read(p.buf[p.contentEnd:contentEnd])
 		p.contentEnd += n
 		if err != nil {
+			if err == io.EOF && p.contentEnd >= contentEnd {
+				// All requested data arrived together with EOF. The next Read reports EOF again.
+				return nil
+			}
 			return err
 		}
 		if p.contentEnd >= contentEnd {
